@@ -29,7 +29,7 @@ use zipora::memory::{
 };
 
 const HEADER: &str = r#"From ZV.Common Require Import Base Run.
-From ZV.C07 Require Import Model ModelFive ModelTL ModelTiered ModelSecure Cases.
+From ZV.C07 Require Import Model ModelFive ModelTL ModelTiered ModelSecure ModelMmap Cases.
 Open Scope N_scope.
 Definition case_t := xcase.
 Definition ok := xok.
@@ -39,7 +39,7 @@ struct Ctx { sum: Summary, shards: CoqShards, budget: usize, impl_bins: Vec<u64>
 impl Ctx {
     /// per-cell budget of Coq-evaluated cases (quick tier: about 1500 in total)
     fn room(&mut self, key: &'static str, force: bool) -> bool {
-        let cap = match key { "lockfree" => 380, "fixedcap" => 170, "bump" => 260, "five" => 300, "threadlocal" => 140, "tiered" => 110, "secure" => 110, "mempool" => 30, _ => 0 }
+        let cap = match key { "lockfree" => 340, "fixedcap" => 170, "bump" => 230, "five" => 300, "threadlocal" => 140, "tiered" => 110, "secure" => 110, "mempool" => 30, "mmap" => 60, _ => 0 }
                   * if self.thorough { 7 } else { 1 };
         let n = self.used.entry(key).or_insert(0);
         if force || (*n < cap && self.shards.len() < self.budget) { *n += 1; true } else { false }
@@ -547,17 +547,36 @@ impl Put for TieredPut {
 }
 impl Drop for TieredPut { fn drop(&mut self) { let hs: Vec<u64> = self.h.keys().copied().collect(); for id in hs { self.free(id); } } }
 
-struct MmapPut { h: HashMap<u64, MmapAllocation>, a: MemoryMappedAllocator }
+struct MmapPut { h: HashMap<u64, MmapAllocation>, a: MemoryMappedAllocator,
+                 // model comparison: region address -> serial, observation of the current op, of all ops
+                 serials: HashMap<usize, u64>, next: u64, pending: Vec<Option<i64>>, rec: Vec<Vec<Option<i64>>> }
 impl Put for MmapPut {
     fn alloc(&mut self, id: u64, size: usize, _align: usize) -> Option<Blk> {
-        let mut m = self.a.allocate(size).ok()?;
-        let blk = Blk { addr: m.as_mut_ptr() as usize, usable: m.size(), mem: true };
+        let hits = self.a.stats().cache_hits;
+        let mut m = match self.a.allocate(size) { Ok(m) => m, Err(_) => { self.pending = vec![None; 3]; return None; } };
+        let hit = self.a.stats().cache_hits != hits;
+        let addr = m.as_mut_ptr() as usize;
+        let ser = if hit { self.serials.get(&addr).map(|&v| v as i64).unwrap_or(-1) } else { let n = self.next; self.next += 1; self.serials.insert(addr, n); n as i64 };
+        let page = unsafe { libc::sysconf(libc::_SC_PAGESIZE) } as usize;
+        // the usable size is the request rounded up to whole pages (the mapping), the guard exposes the requested size
+        self.pending = vec![Some(hit as i64), Some(ser), Some((size.div_ceil(page) * page) as i64)];
+        let blk = Blk { addr, usable: m.size(), mem: true };
         self.h.insert(id, m);
         Some(blk)
     }
-    fn free(&mut self, id: u64) -> bool { let m = self.h.remove(&id).unwrap(); self.a.deallocate(m).is_ok() }
+    fn free(&mut self, id: u64) -> bool {
+        let m = self.h.remove(&id).unwrap();
+        let addr = m.as_slice().as_ptr() as usize;
+        let before = self.a.stats().cached_regions;
+        let ok = self.a.deallocate(m).is_ok();
+        let kept = self.a.stats().cached_regions > before;
+        if !kept { self.serials.remove(&addr); }
+        self.pending = vec![Some(kept as i64)];
+        ok
+    }
     fn cfg_align(&self) -> usize { 4096 }
     fn must_refuse(&self, size: usize) -> bool { size > (1usize << 47) }
+    fn note(&mut self) { let p = std::mem::take(&mut self.pending); self.rec.push(p); }
 }
 impl Drop for MmapPut { fn drop(&mut self) { let hs: Vec<u64> = self.h.keys().copied().collect(); for id in hs { self.free(id); } } }
 
@@ -864,9 +883,23 @@ fn run_case(cx: &mut Ctx, c: &Value, force: bool) {
         }
         "mmap" => {
             let cell = "MemoryMappedAllocator";
-            cx.sum.eval(cell, &key, nontrivial); cx.sum.cell_status(cell, "S-only");
-            let mut put = MmapPut { h: HashMap::new(), a: MemoryMappedAllocator::new(u(c, "min") as usize) };
-            drive(cx, cell, c, &mut put, &ops);
+            cx.sum.eval(cell, &key, nontrivial);
+            let min = u(c, "min") as usize;
+            let mut put = MmapPut { h: HashMap::new(), a: MemoryMappedAllocator::new(min), serials: HashMap::new(), next: 0, pending: vec![], rec: vec![] };
+            if drive(cx, cell, c, &mut put, &ops).is_some() {
+                // model comparison: sizes a mapping certainly succeeds for (or whose page rounding overflows)
+                let pg = unsafe { libc::sysconf(libc::_SC_PAGESIZE) } as u64;
+                let sizes_ok = ops.iter().all(|o| o[0] != 0 || o[1] <= (1 << 30) || o[1] > u64::MAX - (pg - 1));
+                if sizes_ok && put.rec.len() == ops.len() && cx.room("mmap", force) {
+                    let page = unsafe { libc::sysconf(libc::_SC_PAGESIZE) } as usize;
+                    let mut cops = vec![]; let mut exp: Vec<String> = vec![];
+                    for (o, r) in ops.iter().zip(put.rec.iter()) {
+                        match o[0] { 0 => cops.push(format!("MMA {}", o[1])), 1 => cops.push(format!("MMF {}", o[1])), _ => continue }
+                        for x in r { exp.push(coq_oz(&x.map(|v| v as i128))); }
+                    }
+                    cx.shards.push(format!("XMm {} {} [{}] [{}]", min, page, cops.join("; "), exp.join("; ")), c.clone());
+                }
+            }
         }
         "numa" => {
             let cell = "numa_alloc_aligned";
